@@ -130,7 +130,9 @@ def _stub(f_scalars: bool, f_containers: bool, f_nested: bool, f_ct: bool, f_vir
             persistent.append("lct")
     if f_virtual:
         schema.virt = VirtualField(lambda cfg: 1)
-        virtual.append("virt")
+        # ... and one that can be assigned to (its setter writes another field): still not a persistent field
+        schema.virt_rw = VirtualField(lambda cfg: cfg.always, lambda cfg, value: cfg.__setattr__("always", value))
+        virtual += ["virt", "virt_rw"]
     if f_secure:
         schema.pw = SecureField()
         schema.ch = ChallengeField("md5")
